@@ -381,7 +381,9 @@ class Check:
         if rc != 0:
             if "[build failed]" in o or "[setup failed]" in o:
                 raise Undecided("harness build failed for %s:\n%s" % (pkg, o[-5000:]))
-            raise Undecided("harness %s -run %s failed (rc %d):\n%s" % (pkg, run, rc, o[-6000:]))
+            i = o.find("WARNING: DATA RACE")
+            race = ("\n--- first data race ---\n" + o[i:i + 5000]) if i >= 0 else ""
+            raise Undecided("harness %s -run %s failed (rc %d):\n%s%s" % (pkg, run, rc, o[-3000:], race))
         if not os.path.exists(out):
             raise Undecided("harness %s -run %s wrote no output (test not matched?)\n%s" % (pkg, run, o[-2000:]))
         return out, o
